@@ -25,6 +25,7 @@ import (
 	"fmt"
 	"strconv"
 	"strings"
+	"unicode/utf8"
 
 	errorsmod "cosmossdk.io/errors"
 	channeltypes "github.com/cosmos/ibc-go/v8/modules/core/04-channel/types"
@@ -158,6 +159,15 @@ func ValidateCounterpartyID(id string, protocol ProtocolID) error {
 	// encoding reserves the null character as string delimiter.
 	if strings.ContainsRune(id, 0) {
 		return errors.New("counterparty ID cannot contain the null character")
+	}
+
+	// NOTE: when a string is not the last part of a composite key, the collections encoding
+	// copies only the first byte of every multi-byte character. The stored key would not
+	// decode to the same ID, and entries stored after it would not be readable anymore.
+	for i := range len(id) {
+		if id[i] >= utf8.RuneSelf {
+			return errors.New("counterparty ID cannot contain non-ASCII characters")
+		}
 	}
 
 	if len(id) > MaxCounterpartyIDLength {
